@@ -199,6 +199,17 @@ def run(tier):
                     rep.ob("C11.shared|parse_file_internal|%s" % fname, not fresh and 1 in l2,
                            "parse_file_internal parses the file with the caller's %s" % fname if not fresh and 1 in l2 else
                            "parse_file_internal replaces %s by a fresh object (%s)" % (fname, fresh))
+            # the nested context knows the file by the location that was actually opened (relative .includepath inside it is resolved
+            # against current_path: C11.search|includepath)
+            chp = MU.Chaser(pb)
+            opened_r = [chp.root(xt["args"][0], through_calls=False) for _, xt, _, _ in P.call_sites(pk) if MU.callee_names(xt)[1] == "std::fs::File::open"]
+            opened = [r_[0] for r_ in opened_r]
+            for bi, st in agg2:
+                cur = chp.root(st["rv"]["ops"][fields.index("current_path")], through_calls=False)[0]
+                okc_ = len(opened) == 1 and (cur == opened[0] or (opened[0] == st["place"]["local"] and MU.proj_fields(opened_r[0][1]) == [fields.index("current_path")]))
+                rep.ob("C11.search|current-path", okc_, "the file is parsed under the location that was opened, so a relative .includepath inside it starts from its real directory" if okc_ else
+                       "the context the file is parsed with does not carry the location that was opened (File::open takes `%s`, current_path is `%s`): a relative .includepath inside a file found through the search directories starts from the wrong directory" % (
+                           pb["locals"][opened[0]]["name"] if opened and opened[0] is not None else "?", pb["locals"][cur]["name"] if cur is not None else "?"))
             rep.ob("C11.search|own-directory", okp, "the directory of the file being parsed is added to the set its own includes are searched in" if okp else
                    "the directory of the including file is not added to the search set")
     # caller-supplied directories
